@@ -19,10 +19,16 @@ Definition wrote (pr : pair) (p : payload) (count_conn : bool) (s : state) : sta
                     (if count_conn then set_s_bytes_sent (s_bytes_sent s + pl_len p) s else s)
   else s.
 
-Lemma do_write_result pr p cc s :
-  do_write pr p cc s = (wrote pr p cc s, [OData (c_h (p_loc pr)) (c_addr (p_rem pr)) p; ORet ROk]).
+(* what a write over pair pr does: the datagram and the counters -- or, when the socket refuses the send
+   (pl_refused: a fault injected by the environment), nothing at all; Write reports success either way *)
+Definition write_result (pr : pair) (p : payload) (count_conn : bool) (s : state) : state * list out :=
+  if pl_refused p then (s, [ORet ROk])
+  else (wrote pr p count_conn s, [OData (c_h (p_loc pr)) (c_addr (p_rem pr)) p; ORet ROk]).
+
+Lemma do_write_result pr p cc s : do_write pr p cc s = write_result pr p cc s.
 Proof.
-  unfold do_write, wrote, seq, emit, upd_pair, modify, nop. cbn.
+  unfold do_write, write_result. destruct (pl_refused p); [reflexivity|].
+  unfold wrote, seq, emit, upd_pair, modify, nop. cbn.
   destruct (0 <? pl_len p); destruct cc; cbn; reflexivity.
 Qed.
 
@@ -34,7 +40,7 @@ Theorem conn_write_spec p s :
   if s_closed s then (s, [ORet RErrClosed])
   else if pl_stun p then (s, [ORet RErrStunPayload])
   else match write_target s with
-       | Some pr => (wrote pr p true s, [OData (c_h (p_loc pr)) (c_addr (p_rem pr)) p; ORet ROk])
+       | Some pr => write_result pr p true s
        | None => (s, [ORet RErrNoPairs])
        end.
 Proof.
@@ -51,7 +57,7 @@ Theorem conn_write_to_pair_spec id p s :
   else match pair_by_id id s with
        | None => (s, [ORet RErrPairNotFound])
        | Some pr => if p_state pr =? CandidatePairStateSucceeded
-                    then (wrote pr p false s, [OData (c_h (p_loc pr)) (c_addr (p_rem pr)) p; ORet ROk])
+                    then write_result pr p false s
                     else (s, [ORet RErrPairNotSucceeded])
        end.
 Proof.
@@ -221,15 +227,17 @@ Proof.
   destruct o; try exact I; cbn [step_m]; sat_decompose; try (sat_base frame_tac); try apply counters_update_conn.
 Qed.
 
+(* Conn.BytesSent grows by exactly the payload bytes the socket accepted: the datagram that went out on the wire *)
 Theorem write_counts_payload_bytes cfg p s :
   let '(s', outs) := step cfg s (Write p) in
   s_bytes_recv s' = s_bytes_recv s /\
-  s_bytes_sent s' = s_bytes_sent s + (if existsb (fun o => match o with ORet ROk => true | _ => false end) outs
+  s_bytes_sent s' = s_bytes_sent s + (if existsb (fun o => match o with OData _ _ _ => true | _ => false end) outs
                                        then Z.max 0 (pl_len p) else 0).
 Proof.
   unfold step, step_m. rewrite conn_write_spec.
   destruct (s_closed s); [cbn; split; [reflexivity|lia]|]. destruct (pl_stun p); [cbn; split; [reflexivity|lia]|].
   destruct (write_target s) as [pr|]; [|cbn; split; [reflexivity|lia]].
+  unfold write_result. destruct (pl_refused p); [cbn; split; [reflexivity|lia]|].
   cbn [existsb orb]. unfold wrote. destruct (Z.ltb_spec 0 (pl_len p)); cbn; split; try reflexivity; lia.
 Qed.
 
